@@ -40,21 +40,20 @@ Theorem history_reparse : forall rx ops, Forall op_ok ops -> accept_kinds (kinds
 Proof. exact history_reparse_main. Qed.
 Print Assumptions history_reparse.
 
-(* FULL STATEMENT (false on the current tree, see rejected_unchanged_refuted):
+(* FULL STATEMENT:
      forall rx rs o rs' res, step rx rs o = (rs', res) -> rejected o res = true -> rs' = rs.
-   Proved: it holds for every operation and outcome except when _cleanNamespaces raises
-   NoModificationAllowedErr at the end of an insertion / namespaces[p]=u / cssText= (open finding
-   C07-namespace-clean-raises). *)
+   Proved for every operation and outcome except `sheet.cssText = text` ending in a NoModificationAllowedErr raised by
+   the _cleanNamespaces call that follows a successful parse (no history producing it is known: the parser never
+   keeps two @namespace rules with one prefix; the model keeps the branch because the code has it). *)
 Theorem rejected_unchanged_partial : forall rx rs o rs' res,
   step rx rs o = (rs', res) -> rejected o res = true ->
   (ends_in_clean o = true -> res <> Exc NoModificationAllowedErr) -> rs' = rs.
 Proof. exact rejected_unchanged_main. Qed.
 Print Assumptions rejected_unchanged_partial.
 
-Theorem rejected_unchanged_refuted :
-  exists rx rs o, valid_sheet rs = true /\ op_ok o /\ rejected o (snd (step rx rs o)) = true /\ fst (step rx rs o) <> rs.
-Proof. exact rejected_unchanged_refuted_main. Qed.
-Print Assumptions rejected_unchanged_refuted.
+(* the witness that used to refute the statement (insertRule raising out of _cleanNamespaces) *)
+Example clean_raise_is_unchanged : step true refute_sheet refute_op = (refute_sheet, Exc NoModificationAllowedErr).
+Proof. exact clean_raise_restores. Qed.
 
 (* non-vacuity *)
 Example history_nontrivial : Forall op_ok demo_ops /\
